@@ -415,8 +415,152 @@ def readonly_arrays(chk, prog):
     chk.floor("C16.f", n, 30, "in-place stores examined")
 
 
+def positional_index_sites(chk, prog):
+    """C16.g: `X.iloc[e]` with a computed scalar index e (not the literal first / last element, which is C16.d): the index is bounded
+    by the length of what it indexes - a `range(len(.))` loop variable, a counter that starts at `len(.) - 1` and runs down under a
+    `>= 0` guard, or the access is control dependent on a comparison of the index with a length."""
+    n = 0
+    for key, fi in sorted(prog.funcs.items()):
+        flow = None
+        where = f"{fi.module}:{fi.qualname}"
+        for x in walk_no_nested(fi.node):
+            if not (isinstance(x, ast.Subscript) and isinstance(x.value, ast.Attribute) and x.value.attr == "iloc" and isinstance(x.ctx, ast.Load)):
+                continue
+            idx = x.slice
+            if isinstance(idx, (ast.Slice, ast.Tuple, ast.Compare, ast.List)) or isinstance(idx, ast.Constant):
+                continue
+            if isinstance(idx, ast.UnaryOp) and isinstance(idx.operand, ast.Constant):
+                continue
+            flow = flow or flow_of(fi)
+            nid = flow.node_of(x)
+            if nid is None:
+                continue
+            n += 1
+            chk.fn(key)
+            construct = norm(x)
+            inner = idx
+            while isinstance(inner, ast.Call) and isinstance(inner.func, ast.Name) and inner.func.id == "int" and len(inner.args) == 1:
+                inner = inner.args[0]
+            names = {v.id for v in ast.walk(inner) if isinstance(v, ast.Name)}
+            why = None
+            def is_len(e):
+                return any(isinstance(c, ast.Call) and isinstance(c.func, ast.Name) and c.func.id == "len" for c in ast.walk(e)) or \
+                    any(isinstance(c, ast.Attribute) and c.attr in ("shape", "size") for c in ast.walk(e))
+            def len_like(e, at):
+                if is_len(e):
+                    return True
+                if isinstance(e, ast.Name):
+                    for d in flow.defs_reaching(e.id, at):
+                        a = flow.cfg.nodes[d].ast if d != ENTRY else None
+                        if isinstance(a, ast.Assign) and is_len(a.value):
+                            return True
+                return False
+            # (a) loop variable of range(len(.)) / range(k, len(.)) / range(<name bound to a length or index of this frame>)
+            if isinstance(inner, ast.Name):
+                for d in flow.defs_reaching(inner.id, nid):
+                    dn = flow.cfg.nodes[d] if d != ENTRY else None
+                    if dn is not None and dn.kind == "for" and isinstance(dn.ast.iter, ast.Call) and isinstance(dn.ast.iter.func, ast.Name) \
+                            and dn.ast.iter.func.id == "range" and dn.ast.iter.args and len_like(dn.ast.iter.args[-1], d):
+                        why = f"loop variable of `{norm(dn.ast.iter)}`"
+                    elif dn is not None and isinstance(dn.ast, ast.Assign) and isinstance(dn.ast.value, ast.BinOp) and isinstance(dn.ast.value.op, ast.Sub) \
+                            and is_len(dn.ast.value.left) and isinstance(dn.ast.value.right, ast.Constant) and dn.ast.value.right.value == 1:
+                        # (b) counter starting at len - 1: must run down under a >= 0 guard
+                        guard = any(flow.cfg.nodes[t].kind == "test" and isinstance(flow.cfg.nodes[t].ast, ast.Compare)
+                                    and norm(flow.cfg.nodes[t].ast.left) == inner.id and isinstance(flow.cfg.nodes[t].ast.ops[0], ast.GtE) and l is True
+                                    for t, l in flow.cfg.transitive_control_deps(nid))
+                        if guard:
+                            why = f"counter from `{norm(dn.ast.value)}` down, under `{inner.id} >= 0`"
+            # (c) control dependent on a comparison of the index with a length
+            if why is None:
+                for t, l in flow.cfg.transitive_control_deps(nid):
+                    c = flow.cfg.nodes[t].ast
+                    if flow.cfg.nodes[t].kind == "test" and isinstance(c, ast.Compare) and len(c.ops) == 1:
+                        lt = (isinstance(c.ops[0], ast.Lt) and l is True) or (isinstance(c.ops[0], ast.GtE) and l is False)
+                        if lt and ({v.id for v in ast.walk(c.left) if isinstance(v, ast.Name)} & names) and len_like(c.comparators[0], t):
+                            why = f"guarded by `{norm(c)}`"
+            if why:
+                chk.ok("C16.g", where, construct, why)
+            else:
+                chk.violation("C16.g", where, construct,
+                              "positional access with a computed index that is not bounded by the length of the series (no range(len(.)) loop, no "
+                              "length guard): IndexError when the series is shorter than the index, e.g. a season cut short by the end of the window",
+                              loc=fi.loc(x))
+    chk.floor("C16.g", n, 6, "positional accesses with a computed index")
+
+
+def no_none_outputs(chk, prog):
+    """C16.h: every value that reaches a cell of the daily tables is a number: interprocedural constant propagation of the daily step
+    for water_table in {0, 1}, in and out of season; a cell whose abstract value is the constant None (a callee's `return None`
+    threaded into the state) is stored as NaN in the float table - a non-finite reported number on every simulated day"""
+    from ..cp import batch, row_writers
+    from ..common import STEP_FN
+    from ..absint import Const
+    res = batch(prog, [{"param_struct.water_table": 0}, {"param_struct.water_table": 1}])
+    step = prog.func(STEP_FN)
+    n = 0
+    for r in res:
+        label = f"water_table={r.config['param_struct.water_table']}"
+        chk.valuation(label)
+        for table in ("water_flux", "crop_growth"):
+            loc = step.loc(row_writers(prog)[table])
+            for gs in (True, False):
+                for row in r.rows[table][gs]:
+                    for col, v in row.items():
+                        n += 1
+                        construct = f"{table}.{col} | {label}, growing_season={gs}"
+                        if isinstance(v, Const) and v.v is None:
+                            chk.violation("C16.h", STEP_FN, construct, f"the value reaching column {col} is the constant None: the float table stores NaN, "
+                                          "a non-finite reported number on every such day", loc=loc)
+                        else:
+                            chk.ok("C16.h", STEP_FN, construct, f"abstract value {v}", nontrivial=False)
+    chk.floor("C16.h", n, 100, "table cells examined (columns x valuations x partitions)")
+
+
+_MOCK_YEAR_EXAMPLE = "x = pd.to_datetime('1990/' + f'{d.month}' + '/' + f'{d.day}')"
+
+
+def _mock_year_sites(tree: ast.AST):
+    """to_datetime(<literal 'YYYY/'> ... <date>.month ... <date>.day): (call, year)"""
+    import re as _re
+    out = []
+    for c in ast.walk(tree):
+        if isinstance(c, ast.Call) and isinstance(c.func, ast.Attribute) and c.func.attr == "to_datetime" and c.args:
+            arg = c.args[0]
+            attrs = {x.attr for x in ast.walk(arg) if isinstance(x, ast.Attribute)}
+            if not {"month", "day"} <= attrs:
+                continue
+            for k in ast.walk(arg):
+                if isinstance(k, ast.Constant) and isinstance(k.value, str):
+                    m = _re.match(r"^(\d{4})[/-]", k.value)
+                    if m:
+                        out.append((c, int(m.group(1))))
+    return out
+
+
+def mock_years(chk, prog):
+    """C16.i: a month and day taken from a real date (which can be 29 February) are completed to a date only with a leap mock year"""
+    ex = _mock_year_sites(ast.parse(_MOCK_YEAR_EXAMPLE))
+    if len(ex) != 1 or ex[0][1] != 1990:
+        raise AnalysisError("C16.i: the rule no longer recognises its positive example")
+    n = 0
+    for key, fi in sorted(prog.funcs.items()):
+        for c, y in _mock_year_sites(fi.node):
+            n += 1
+            chk.fn(key)
+            where = f"{fi.module}:{fi.qualname}"
+            leap = y % 4 == 0 and (y % 100 != 0 or y % 400 == 0)
+            if leap:
+                chk.ok("C16.i", where, norm(c)[:90], f"mock year {y} is a leap year")
+            else:
+                chk.violation("C16.i", where, norm(c)[:90], f"month and day of a real date are parsed with the non-leap mock year {y}: a date of 29 February "
+                              "(e.g. a simulation period ending on a leap day) raises an undocumented date-parsing error", loc=fi.loc(c))
+    chk.floor("C16.i", n, 1, "month/day of a date completed with a literal year")
+
+
 def run(chk, prog, tier):
     from ._siblings import yield_clock_agreement
     chk.parallel(prog, [rule_a, attribute_definedness, lambda c, p: table_divisors(c, p, "C16.c"), first_element_sites,
-                        lambda c, p: yield_clock_agreement(c, p, "C16.e"), readonly_arrays])
+                        lambda c, p: yield_clock_agreement(c, p, "C16.e"), readonly_arrays, positional_index_sites])
+    no_none_outputs(chk, prog)
+    mock_years(chk, prog)
     chk.exhaustive = True
